@@ -78,12 +78,12 @@ impl Encoder for TTYEncoder {
             CursorMove { row, col } => {
                 match col.cmp(&0) {
                     Ordering::Greater => write!(out, "\x1b[{}C", col)?,
-                    Ordering::Less => write!(out, "\x1b[{}D", -col)?,
+                    Ordering::Less => write!(out, "\x1b[{}D", col.unsigned_abs())?,
                     _ => {}
                 }
                 match row.cmp(&0) {
                     Ordering::Greater => write!(out, "\x1b[{}B", row)?,
-                    Ordering::Less => write!(out, "\x1b[{}A", -row)?,
+                    Ordering::Less => write!(out, "\x1b[{}A", row.unsigned_abs())?,
                     _ => {}
                 }
             }
@@ -202,7 +202,7 @@ impl Encoder for TTYEncoder {
             Reset => out.write_all(b"\x1bc")?,
             Char(c) => write!(out, "{}", c)?,
             Scroll(count) => match count.cmp(&0) {
-                Ordering::Less => write!(out, "\x1b[{}T", -count)?,
+                Ordering::Less => write!(out, "\x1b[{}T", count.unsigned_abs())?,
                 Ordering::Greater => write!(out, "\x1b[{}S", count)?,
                 _ => (),
             },
